@@ -255,6 +255,12 @@ def monC04 (cfg : Cfg) (evs : Array Ev) : String :=
     topic exactly once per nack+1 (exactly once when it always acks) -/
 def monC11 (cfg : Cfg) (evs : Array Ev) : String := Id.run do
   if !cfg.persistent then return "ok"
+  -- "receives every message ever published": the message as it was published (uuid, payload, metadata), whatever the
+  -- publisher does with its own object afterwards – live, replayed from the backlog or redelivered
+  for e in evs do
+    match e with
+    | .rv _ _ _ _ _ same _ _ => if !same then return "violated:persistent_message_differs_from_published"
+    | _ => pure ()
   match firstIdx evs (fun e => match e with | .goals => true | _ => false) with
   | none => return noStuck evs
   | some g =>
